@@ -264,6 +264,17 @@ Theorem C04_watch_generations_isolated : forall g i l st pre r,
 Proof. exact live_generation_receives. Qed.
 Print Assumptions C04_watch_generations_isolated.
 
+(** in particular ANY number of sibling watchers (65536 + k of them as well) that subscribe and stop
+    next to the live generation - as long as none is given the live one's id - are a no-op for it:
+    the next report still reaches it.  (The harness step [siblings n] runs n such pairs on the real
+    registry; the checker treats the step as this no-op, it does not unroll the events.) *)
+Theorem C04_watch_siblings_harmless : forall g i l l' st sibs r,
+  other_ids_differ g i st ->
+  (forall g' i', In (g', i') sibs -> g' <> g /\ i' <> i) ->
+  In (g, r) (snd (rstep (rfinal (fst (rstep st (WSub g i l))) (siblings l' sibs)) (WReport r))).
+Proof. exact siblings_harmless. Qed.
+Print Assumptions C04_watch_siblings_harmless.
+
 (** non-vacuity, and why the hypothesis "other ids" is needed: with ids re-used after a stop
     (gen 3 obtains gen 2's id) closing gen 2 deletes gen 3's subscription and a later report reaches
     nobody; with distinct ids it reaches generation 3 *)
